@@ -200,7 +200,9 @@ class C04Dst(DstWorld, RetryMixin):
             evs.append(("md",))
         if not m["eof"]:
             evs.append(("eof", self.c["size"], "NO_ERROR", 1))
-        for s in self.segs:
+        for i, s in enumerate(self.segs):
+            if self.cfg.get("only_middle") and i != 1 and not m["eof"]:
+                continue  # keep two non-adjacent gaps open until the EOF arrived
             if repr(s) not in m["sent"]:
                 evs.append(s)
         if st.D.h.states.step.name == "WAITING_FOR_FINISHED_ACK":
@@ -362,6 +364,9 @@ def configs(tier):
             continue
         for nak in ("imm", "def"):
             dst.append(dict(mode="ack", size=3, seg=2, ack_limit=na, nak_limit=nn, nak=nak, closure=False))
+    # NAK sequences of several PDUs (one request fits per PDU, two non-adjacent gaps)
+    for nn, nak in itertools.product((2, 3), ("imm", "def")):
+        dst.append(dict(mode="ack", size=5, seg=2, ack_limit=2, nak_limit=nn, nak=nak, closure=False, mpl=27, only_middle=True))
     return src, dst
 
 
